@@ -150,6 +150,19 @@ TEXT = {
                 "in-memory object store hook; git.",
         "technique": "Lean 4 proof (refinement target ChainSrv with its invariant) + correspondence check of five backends against it",
     },
+    "C11": {
+        "level": "Lean theorems: an interrupted add_version leaves either the state of a completed call or the state before it, never a version a completed "
+                 "call would have refused; after ANY history of completed and interrupted requests the versions still form one linear chain (so every C08 law keeps "
+                 "holding) and everything accepted earlier is still there unchanged; for a replica the interruption is the sync machine's abort, with or without the "
+                 "push having taken effect, so invariant, no-OutOfSync and convergence (C01/C02/C04 theorems) cover it. Tied to the code by stopping the real local, "
+                 "git (local and shared remote) and object-store backends at each internal step of add_version / add_snapshot (named failpoints, per-request faults), "
+                 "re-opening them, and checking all-or-nothing visibility from every handle, continued protocol conformance, and convergence of whole replicas "
+                 "synchronizing through the interrupted backend.",
+        "design_ref": "DESIGN.md §5 C11",
+        "note": "Trusted: Lean kernel + standard axioms; failpoint-error + reopen as a stand-in for a kill (SQLite journal / git atomicity under a real kill trusted); "
+                "in-memory object store hook.",
+        "technique": "Lean 4 proof (event-sequence invariant over ChainSrv; reuse of the sync-machine theorems) + fault-injection correspondence check on four backend configurations",
+    },
     "C13": {
         "level": "PARTIAL. Lean theorems about an independent RFC-level implementation of the documented scheme (SHA-256, HMAC, PBKDF2, ChaCha20, "
                  "Poly1305, the AEAD construction, the envelope): unseal∘seal = id for every key, 12-byte nonce, version id and payload; the "
